@@ -69,6 +69,8 @@ func replay(kind string, input json.RawMessage) (bool, string) {
 		return e2.ReplayScale(input)
 	case "nest":
 		return e2.ReplayNest(input)
+	case "partial":
+		return e2.ReplayPartial(input)
 	}
 	var in util.CellInput
 	if err := json.Unmarshal(input, &in); err != nil {
@@ -418,5 +420,6 @@ func run(r *chk.Run) {
 	// signedness is looked up under the table's own name (names differing in case only)
 	e2.RunCaseTwins(r)
 	e2.RunScale(r, "wide-table", "kept-cells")
+	e2.RunPartialImages(r)
 	r.SetExhaustive(true)
 }
